@@ -37,7 +37,7 @@ over the vocabulary of lean/G3D/Model/PyRt.lean + PyRtM.lean.  Additions to the 
   u.length() < get_eps()                   pyCmpTol .lt true (← pyMeth_normSq ⟦u⟧) 0
   a / u.length() / u.length()              pyDivLenSq ⟦a⟧ ⟦u⟧
   (u.normalized() - w.normalized()).length() < get_eps()          pySameDir ⟦u⟧ ⟦w⟧
-  hash(a) == hash(b)                       pyHashEq ⟦a⟧ ⟦b⟧
+  hash(a) == hash(b)                       REJECTED: equal hashes are not equality (CPython: hash(-1) == hash(-2); defect D12)
   sorted(set(p), key=p.index)              pyDedupFirst ⟦p⟧
   d = dict(); [a = math.atan2(z, y); if a < 0: a += 2 * math.pi; d[a] = p]; [d[k] for k in sorted(d)]
                                            d : AngDict := pyAngDictNew; d ← pyAngDictSet d ⟦y⟧ ⟦z⟧ ⟦p⟧; pyAngDictSortedValues d
@@ -90,7 +90,7 @@ GROUPS = {
         (PYR, 'Pyramid', '__init__'),
         (PH, 'ConvexPolyhedron', '_get_center_point'), (PH, 'ConvexPolyhedron', '_check_normal'),
         (PH, 'ConvexPolyhedron', '_euler_check'), (PH, 'ConvexPolyhedron', '__init__'),
-        (PH, 'ConvexPolyhedron', '__contains__'), (PH, 'ConvexPolyhedron', 'move'),
+        (PH, 'ConvexPolyhedron', '__contains__'), (PH, 'ConvexPolyhedron', '__eq__'), (PH, 'ConvexPolyhedron', 'move'),
     ],
     # module-level functions (pseudo-class `@<module>`): the non-dispatch predicates of calc/angle.py
     'mcalc': [
@@ -296,8 +296,7 @@ class MFn(hextract.Fn):
                     return 'pyCmpTol .lt true (← pyMeth_normSq %s) (Val.int 0)' % self.val(inner), True
                 return 'pyCmpTol %s %s %s %s' % (CMP[type(op)], plus, self.val(a), ctext), True
             if isinstance(op, (ast.Eq, ast.NotEq)) and is_call(a, 'hash', 1) and is_call(b, 'hash', 1):
-                t = 'pyHashEq %s %s' % (self.val(a.args[0]), self.val(b.args[0]))
-                return (t, True) if isinstance(op, ast.Eq) else ('(pyNot (← %s))' % t, False)
+                self.fail(e, 'hash(..) == hash(..) used as equality: equal hashes do not imply equal objects (not modelled)')
             if isinstance(op, ast.Eq):
                 return 'pyEqM %s %s' % (self.val(a), self.val(b)), True
             if isinstance(op, ast.NotEq):
